@@ -26,6 +26,7 @@ type net struct {
 	mu    sync.Mutex
 	nodes map[string]*direct
 	held  chan struct{} // non-nil: requests sent by node 0 are held back (a slow or silent network) until released
+	cut   bool          // node 0 is partitioned away: every request from or to it fails
 }
 
 // hold blocks the calling sender goroutine while the network holds node 0's requests
@@ -69,6 +70,9 @@ func (d *direct) peer(addr string) (*direct, error) {
 	d.n.mu.Lock()
 	defer d.n.mu.Unlock()
 	p := d.n.nodes[addr]
+	if d.n.cut && (d.addr == "a0") != (addr == "a0") {
+		return nil, errors.New("partitioned")
+	}
 	if p == nil || !p.up || !d.up {
 		return nil, errors.New("unreachable")
 	}
@@ -175,6 +179,12 @@ func child(prog string, nnodes int, dir string) {
 	n0 := nodes[0]
 	bad := 0
 	say := func(f string, a ...interface{}) { fmt.Printf(f+"\n", a...) }
+	type pendingFuture struct {
+		bytes string
+		fut   raft.Future[raft.OperationResponse]
+	}
+	var pendings []pendingFuture
+	nothers := 0
 	for _, call := range strings.Split(prog, ";") {
 		f := strings.Fields(call)
 		if len(f) == 0 {
@@ -207,7 +217,8 @@ func child(prog string, nnodes int, dir string) {
 				progressed := false
 				for i := 1; i < nnodes; i++ {
 					if nodes[i].Status().State == raft.Leader {
-						if res := nodes[i].SubmitOperation([]byte("y"), raft.Replicated, futureTimeout).Await(); res.Error() == nil {
+						if res := nodes[i].SubmitOperation([]byte("y-"+strconv.Itoa(nothers)), raft.Replicated, futureTimeout).Await(); res.Error() == nil {
+							nothers++
 							done++
 							progressed = true
 						}
@@ -231,6 +242,47 @@ func child(prog string, nnodes int, dir string) {
 				fsms[0].slow = nil
 			}
 			fsms[0].mu.Unlock()
+		case "lead0": // make node 0 the leader: whichever other node leads is stopped and restarted until node 0 wins
+			deadline := time.Now().Add(10 * time.Second)
+			for n0.Status().State != raft.Leader && time.Now().Before(deadline) {
+				for i := 1; i < nnodes; i++ {
+					if nodes[i].Status().State == raft.Leader {
+						nodes[i].Stop()
+						time.Sleep(250 * time.Millisecond)
+						nodes[i].Restart()
+					}
+				}
+				time.Sleep(50 * time.Millisecond)
+			}
+			say("lead0 -> %s", n0.Status().State.String())
+		case "cut":
+			nw.mu.Lock()
+			nw.cut = true
+			nw.mu.Unlock()
+		case "uncut":
+			nw.mu.Lock()
+			nw.cut = false
+			nw.mu.Unlock()
+		case "asubmit": // a replicated operation with its own bytes; the future is kept and awaited by "await"
+			b := "x-" + f[1]
+			pendings = append(pendings, pendingFuture{b, n0.SubmitOperation([]byte(b), raft.Replicated, 6*time.Second)})
+			say("asubmit %s", b)
+		case "await": // C03: a future that resolves successfully returns exactly the bytes submitted through it
+			for _, pf := range pendings {
+				res := pf.fut.Await()
+				if res.Error() != nil {
+					say("await %s -> err=%v", pf.bytes, res.Error())
+					continue
+				}
+				got := string(res.Success().Operation.Bytes)
+				say("await %s -> ok bytes=%s index=%d term=%d", pf.bytes, got, res.Success().Operation.LogIndex, res.Success().Operation.LogTerm)
+				if got != pf.bytes {
+					say("VIOLATION C03 a future resolved successfully with an operation that was not submitted through it: submitted %q, answered %q (index %d, term %d)",
+						pf.bytes, got, res.Success().Operation.LogIndex, res.Success().Operation.LogTerm)
+					bad++
+				}
+			}
+			pendings = nil
 		case "hold":
 			nw.mu.Lock()
 			if nw.held == nil {
@@ -380,7 +432,18 @@ var scripted = []string{
 	"bootstrap;start;sleep 200;hold;sleep 60;add %d 0;stop;start;sleep 100;status;release;sleep 100;submit 0;status",
 }
 
+// C03: futures held across Stop / Restart of the SAME object, across a partition and a change of leader: whatever such a
+// future is answered with, a success answer carries the bytes submitted through it
+var scriptedC03 = []string{
+	"bootstrap;start;sleep 150;lead0;cut;asubmit a;asubmit b;stop;others 3;uncut;restart;sleep 400;others 2;sleep 300;await;status",
+	"bootstrap;start;sleep 150;lead0;cut;asubmit a;asubmit b;asubmit c;stop;others 2;uncut;start;sleep 500;await;status",
+	"bootstrap;start;sleep 150;lead0;cut;asubmit a;asubmit b;others 3;uncut;sleep 400;others 2;sleep 200;await;status",
+	"bootstrap;start;sleep 150;lead0;asubmit a;cut;asubmit b;stop;uncut;restart;sleep 300;asubmit c;others 2;sleep 300;await",
+	"bootstrap;start;sleep 150;lead0;hold;asubmit a;asubmit b;stop;others 3;release;restart;sleep 400;others 2;sleep 300;await",
+}
+
 func main() {
+	family := flag.String("family", "all", "all: the C18 programs; c03: only the futures-across-stop/restart programs of C03")
 	seed := flag.Int64("seed", 1, "PRNG seed")
 	n := flag.Int("n", 40, "random programs")
 	prog := flag.String("child", "", "child mode: run this program")
@@ -403,9 +466,22 @@ func main() {
 		nodes int
 	}
 	var jobs []job
-	for _, s := range scripted {
-		for _, k := range []int{1, 3} {
-			jobs = append(jobs, job{strings.ReplaceAll(s, "%d", strconv.Itoa(k)), k})
+	tag := "C18"
+	if *family == "c03" {
+		tag = "C03"
+		*n = 0
+		for rep := 0; rep < 2; rep++ {
+			for _, s := range scriptedC03 {
+				for _, k := range []int{1, 3} {
+					jobs = append(jobs, job{s, k})
+				}
+			}
+		}
+	} else {
+		for _, s := range scripted {
+			for _, k := range []int{1, 3} {
+				jobs = append(jobs, job{strings.ReplaceAll(s, "%d", strconv.Itoa(k)), k})
+			}
 		}
 	}
 	for i := 0; i < *n; i++ {
@@ -453,7 +529,7 @@ func main() {
 				hist[strings.Fields(c)[0]]++
 			}
 			if verdict != "" {
-				viol = append(viol, fmt.Sprintf("C18 program {%s} on a %d-voter cluster: %s", j.prog, j.nodes, verdict))
+				viol = append(viol, fmt.Sprintf(tag+" program {%s} on a %d-voter cluster: %s", j.prog, j.nodes, verdict))
 			}
 			mu.Unlock()
 		}(i, j)
